@@ -127,6 +127,12 @@ def norm(t, mgr=None):
         return ('call', name, tuple(norm(x, mgr) for x in a))
     if k == 'ite':
         return ('ite', t[1], norm(t[2], mgr), norm(t[3], mgr))
+    if k == 'map' and len(t) == 4:
+        # an element-wise derivative written in place (map / push loop in closed form):  [deriv(x, c) for x in L]
+        dom, kv, body = t[1], t[2], t[3]
+        b = norm(body, mgr)
+        if isinstance(b, tuple) and b and b[0] == 'D' and b[1] == ('elem', dom, kv) and kv not in list(T.subterms(b[2])):
+            return ('mapD', norm(dom, mgr), b[2])
     return t
 
 
